@@ -206,6 +206,10 @@ def _json_dict(case, ctx, d):
             if rng.random() < 0.15:
                 k = np.int64(k)
             has_int = True
+        elif rng.random() < 0.2:
+            # strings that look like numbers without being what str(int) writes: they are strings and stay strings
+            k = NUMBERISH[int(rng.integers(0, len(NUMBERISH)))]
+            has_int = True
         else:
             k = WORDS[int(rng.integers(0, 16))] + 'k%d' % i
         obj[k] = rand_value(rng)
@@ -213,6 +217,10 @@ def _json_dict(case, ctx, d):
     nontriv = has_int or 'array' in txt
     _roundtrip_json(case, ctx, d, obj, nontriv, ('json_dict',))
     ctx.sample({'seed': case['seed'], 'obj': short(obj, 300)}, every=1501)
+
+
+NUMBERISH = ['1_0', '+3', ' 4', '5\n', '6 ', '\u00b2', '\uff11\uff12', '\u0663', '-', '', '--1', '-\u00b2', '1.0', '1e3', '0x10', '- 1',
+             '\u22125', '1,000', '\u2160', '-\uff11']
 
 
 FIELDS = ['cluster_id', 'group', 'amp', 'KSLabel', 'n spikes', 'depth', 'q"f']
@@ -356,7 +364,7 @@ def _params(case, ctx, d):
         if k == 5 and rng.random() < 0.5:
             return tuple(val(1) for _ in range(int(rng.integers(0, 3))))        # tuples survive a parameter file: (), (x,), (x, y)
         return [val(1) for _ in range(int(rng.integers(0, 4)))]
-    keys = ['dat_path', 'n_channels_dat', 'dtype', 'offset', 'sample_rate', 'hp_filtered', 'extra_1']
+    keys = ['dat_path', 'n_channels_dat', 'dtype', 'offset', 'sample_rate', 'hp_filtered', 'extra_1', '_version', '__private', 'trailing_', 'x', '_']
     data = {k: val() for k in keys if rng.random() < 0.8}
     path = os.path.join(d, 'params.py')
     ctx.count(1, key=hkey('params', tuple(case['seed'])), nontrivial=any(isinstance(v, list) for v in data.values()),
